@@ -318,6 +318,8 @@ def coq_expand(ctx, cases, tag='style', shard_cases=400):
                 res[idx] = decode_show(next(it))
     ctx.cov.setdefault('coq_eval', []).append({'cases': len(cases), 'shards': len(shards), 'groups': len(order),
                                               'wall_s': round(time.time() - t0, 1)})
+    import shutil
+    shutil.rmtree(d, ignore_errors=True)      # kept only when the evaluation failed (for diagnosis)
     return res
 
 
@@ -444,3 +446,68 @@ def c07_oracle(abbr, r):
             return '%s error position %r outside input of length %d' % (r[0], p, len(abbr))
         return None
     return 'expand raised %s (not one of the two parse errors)' % (r[1],)
+
+
+# ------------------------------------------------------------------ obligations of float-using property files
+# Print Assumptions lists the kernel's primitive types and operations (PrimFloat.float, PrimFloat.div, PrimInt63.int,
+# ...) under "Axioms:" because they have no body.  They are declared with `Primitive` in theories/Floats/PrimFloat.v and
+# theories/Numbers/Cyclic/Int63/PrimInt63.v -- files that contain no Axiom/Parameter at all (checked below on the
+# installed sources) -- and are part of the kernel named in the trusted base (DESIGN section 6).  Everything else
+# (FloatAxioms.*, Uint63.*_spec, any axiom of ours) is still rejected by common.Ctx.obligations.
+KERNEL_PRIMITIVE = re.compile(r'^(PrimFloat|PrimInt63)\.[\w.\']+$')
+COQCHK_STDLIB = re.compile(r'^Coq\.(Floats\.PrimFloat|Numbers\.Cyclic\.Int63\.PrimInt63|Numbers\.Cyclic\.Int63\.Uint63)\.[\w.\']+$')
+
+
+def kernel_primitive_files_clean():
+    rc, where = common.sh(['coqc', '-where'], timeout=60)
+    if rc != 0:
+        return False
+    root = where.strip().splitlines()[-1]
+    for rel in ('theories/Floats/PrimFloat.v', 'theories/Numbers/Cyclic/Int63/PrimInt63.v'):
+        p = os.path.join(root, rel)
+        if not os.path.exists(p):
+            return False
+        with open(p, encoding='utf-8') as f:
+            body = common.strip_coq_comments(f.read())
+        if re.search(r'\b(Axiom|Axioms|Parameter|Parameters|Conjecture|Hypothesis|Variable)\b', body):
+            return False
+    return True
+
+
+def obligations(ctx, props_file):
+    """ctx.obligations, accepting theorems whose only assumptions are kernel primitives (named in the evidence)."""
+    n0 = len(ctx.broken)
+    ctx.obligations(props_file)
+    clean = None
+    keep = []
+    for b in ctx.broken[n0:]:
+        if b.get('kind') == 'axiom' and b.get('axioms') and all(KERNEL_PRIMITIVE.match(a) for a in b['axioms']):
+            if clean is None:
+                clean = kernel_primitive_files_clean()
+            if clean:
+                ctx.cov['discharged'] += 1
+                continue
+        if b.get('kind') == 'coqchk' and b.get('axioms') and not b.get('unsafe'):
+            # thorough tier: `coqchk -o` lists every axiom of every LOADED library, used or not.  Loading the scorer
+            # loads Coq's PrimFloat / PrimInt63 (primitives) and Uint63 (the stdlib's specification axioms of the
+            # primitive integers, needed for Uint63.of_Z).  None of the Uint63 axioms is used by a property theorem:
+            # the per-theorem Print Assumptions above lists primitives only.  Accept iff coqchk itself succeeded and
+            # the list contains nothing else (in particular nothing from Emmet.*).
+            mod = 'Emmet.' + props_file[:-2].replace('/', '.')
+            rc = ctx.cov.get('coqchk', {}).get(mod, {}).get('rc')
+            if rc == 0 and all(COQCHK_STDLIB.match(a) for a in b['axioms']):
+                if clean is None:
+                    clean = kernel_primitive_files_clean()
+                if clean:
+                    ctx.cov['discharged'] += 1
+                    ctx.cov['coqchk'][mod]['accepted'] = 'only kernel primitives and Coq.Numbers.Cyclic.Int63.Uint63 stdlib axioms (loaded, unused)'
+                    ctx.say('coqchk %s: succeeded; its axiom list holds only kernel primitives (PrimFloat, PrimInt63) and the stdlib '
+                            'axioms of Uint63, loaded with the scorer and used by no property theorem -- accepted' % mod)
+                    continue
+        keep.append(b)
+    ctx.broken[n0:] = keep
+    note = ('kernel primitives PrimFloat.* / PrimInt63.* (declared `Primitive`, no axiom in those files) appear under Print '
+            'Assumptions of theorems that mention the scorer or the configuration record; accepted, listed per theorem')
+    if note not in ctx.cov['trusted_base']:
+        ctx.cov['trusted_base'].append(note)
+    return not keep
